@@ -61,8 +61,13 @@ Print Assumptions genio_plan_correct.
     request (ex_oob) -- leaves every cell whose offset is not one of the requested slab's cell offsets unchanged.
     Proof: vario_loop_frame / genio_loop_frame (inductions over both loops), write_cells_frame, and
     vario_plan_correct to identify the union of the transferred blocks with the slab.
-    PARTIAL -- missing: record variables (dimension 0 growable on write, bounded by numrecs on read); for the very
-    first write the frame reads "everything outside the transfer holds the fill value" (first_write_fills). *)
+    First write included (fourth conjunct, sd_write_frame_base, stride NULL): counting the content of a still empty
+    element as all fill values, ANY SDwritedata changes only cells of the requested region that lie inside the
+    shape -- so after a first write, failing or not, every cell outside the region holds the fill value.
+    PARTIAL -- missing: record variables (dimension 0 growable on write, bounded by numrecs on read: NCcoordck then
+    changes the state, the lemmas coordck_fixed / vario_loop_false / vario_oob_fails need record-variable twins, and
+    the 1-d record variable goes through NCsimplerecio); the first-write form of the frame for stride arrays
+    (needs the accounting of the user values across NCgenio's calls of NCvario). *)
 Theorem out_of_range_rejected_partial :
   (forall m us start stride count,
      is_recvar m = false -> (0 < length (m_shape m))%nat ->
@@ -84,6 +89,14 @@ Theorem out_of_range_rejected_partial :
      (us = true -> length stride = length (m_shape m)) -> Forall (fun d => 0 <= d) (m_shape m) ->
      ~ In (Z.of_nat j * m_esz m) (map (varoffset m) (slab_cells start (if us then stride else ones start) count)) ->
      nth j (m_store (fst (sd_write m us start stride count vals))) Undef = nth j (m_store m) Undef) /\
+  (forall m start stride count vals i,
+     okvar m -> (0 < length (m_shape m))%nat ->
+     length start = length (m_shape m) -> length count = length (m_shape m) ->
+     length vals = Z.to_nat (prod count) ->
+     let m' := fst (sd_write m false start stride count vals) in
+     okvar m' /\ m_shape m' = m_shape m /\
+     (nth i (base m') Undef = nth i (base m) Undef \/
+      In i (map (idx (m_shape m)) (filter (inb (m_shape m)) (slab_cells start (ones start) count))))) /\
   (* strided reads reaching the extent are rejected before any transfer, dataset untouched *)
   (forall m start stride count,
      is_recvar m = false -> (0 < length (m_shape m))%nat ->
@@ -97,7 +110,7 @@ Theorem out_of_range_rejected_partial :
      any2 coordck_bad c shape = negb (all3 (fun x d _ => (0 <=? x) && (x <? d)) c shape c)).
 Proof.
   split. exact sd_read_rejected. split. exact sd_write_rejected. split. exact sd_write_frame.
-  split. exact sd_read_strided_rejected.
+  split. exact sd_write_frame_base. split. exact sd_read_strided_rejected.
   split. exact stride_check_spec0. split. exact stride_check_speci. exact any2_coordck.
 Qed.
 Print Assumptions out_of_range_rejected_partial.
